@@ -71,8 +71,11 @@ fn cause_matches(e: &StunParseError, c: &Cause) -> bool {
         (StunParseError::Truncated { expected, actual }, Cause::ShortHeader { expected: e2, actual: a2 }) => expected == e2 && actual == a2,
         (StunParseError::Truncated { expected, actual }, Cause::ShortBody { expected: e2, actual: a2 }) => expected == e2 && actual == a2,
         // attribute-level truncation: the variant, expected > actual, and - when the cut attribute's
-        // header is complete - the available size, which is the buffer length
-        (StunParseError::Truncated { expected, actual }, Cause::AttrTruncated { available }) => expected > actual && available.map_or(true, |a| a == *actual),
+        // header is complete - the available size (the buffer length) and the size needed to hold
+        // that attribute (with or without its padding)
+        (StunParseError::Truncated { expected, actual }, Cause::AttrTruncated { available, needed }) => {
+            expected > actual && available.map_or(true, |a| a == *actual) && needed.map_or(true, |(a, b)| *expected == a || *expected == b)
+        }
         (StunParseError::TooLarge { .. }, Cause::Excess { .. }) => true,
         (StunParseError::DataMismatch, Cause::Excess { .. }) => true,
         (StunParseError::InvalidAttributeData, Cause::Excess { .. }) => true,
